@@ -158,7 +158,7 @@ pub fn run(parts: &[String]) -> String {
             "modorder" => { let b = unhex(arg); return format!("{} {} {}", h(&fq(&b).to_bytes_le()), h(&fr(&b).to_bytes_le()), h(&fp(&b).to_bytes_le())) }
             "fout" => { return show(&st.pop().expect("stack")) }
             "const" => return crate::cmds::constant(arg),
-            _ => return crate::cmds::field_generic(op, arg, &mut st).unwrap_or_else(|| panic!("unknown token {}", tok)),
+            _ => { if let Some(s) = crate::cmds::field_generic(op, arg, &mut st) { return s; } }
         }
     }
     match st.pop() { Some(v) => show(&v), None => "".to_string() }
@@ -193,7 +193,7 @@ pub fn entry(name: &str, b: &[u8]) -> String {
         "from_random_bytes" => match Aff::from_random_bytes(b) { Some(a) => { let e: Element = a.into(); let back = e.vartime_compress().vartime_decompress();
                 let valid = back.map(|x| x == e).unwrap_or(false) && Group::mul_bigint(&e, Fr::MODULUS.0).is_identity();
                 format!("some {} valid={}", h(&e.vartime_compress().0), valid) }, None => "none".into() },
-        _ => panic!("unknown entry {}", name),
+        _ => panic!("HARNESS unknown entry {}", name),
     }
 }
 
@@ -241,13 +241,13 @@ pub fn named(name: &str, st: &mut Vec<V>) {
         #[cfg(feature = "ark")]
         "normalize_batch" => { let n = st.len(); let v: Vec<Element> = (0..n).map(|_| pop_e(st)).collect(); let v: Vec<Element> = v.into_iter().rev().collect();
             for a in Element::normalize_batch(&v) { st.push(V::A(a)) } }
-        _ => panic!("unknown named {}", name),
+        _ => panic!("HARNESS unknown named {}", name),
     }
 }
 
 pub fn field_generic(op: &str, arg: &str, st: &mut Vec<V>) -> Option<String> {
     // generic three-field ops:  <F>.<op>  with F in q,r,p
-    let (f, o) = match op.find('.') { Some(i) => (&op[..i], &op[i + 1..]), None => return None };
+    let (f, o) = match op.find('.') { Some(i) => (&op[..i], &op[i + 1..]), None => panic!("HARNESS unknown token {}", op) };
     macro_rules! fld { ($T:ty, $pop:ident, $V:path) => {{
         match o {
             "add" => { let b = $pop(st); let a = $pop(st); st.push($V(a + b)) }
@@ -276,12 +276,12 @@ pub fn field_generic(op: &str, arg: &str, st: &mut Vec<V>) -> Option<String> {
         "q" => fld!(Fq, pop_q, V::Q),
         "r" => fld!(Fr, pop_r, V::R),
         "p" => fld!(Fp, pop_p, V::P),
-        _ => return None,
+        _ => panic!("HARNESS unknown field prefix {}", f),
     }
 }
 
 #[cfg(feature = "min")]
-pub fn field_ark(f: &str, o: &str, arg: &str, st: &mut Vec<V>) -> Option<String> { panic!("unknown field op {}.{}", f, o) }
+pub fn field_ark(f: &str, o: &str, arg: &str, st: &mut Vec<V>) -> Option<String> { panic!("HARNESS unknown field op {}.{}", f, o) }
 
 #[cfg(feature = "ark")]
 pub fn field_ark(f: &str, o: &str, arg: &str, st: &mut Vec<V>) -> Option<String> {
@@ -314,7 +314,7 @@ pub fn field_ark(f: &str, o: &str, arg: &str, st: &mut Vec<V>) -> Option<String>
             "from_bigint_conv" => { let l = limbs_of(&unhex(arg)); let mut a = [0u64; $N]; a.copy_from_slice(&l[..$N]); st.push($V(<$T>::from(ark_ff::BigInt(a)))) }
             "is_zero" => { let a = $pop(st); return Some(format!("{}", a.is_zero())) }
             "is_one" => { let a = $pop(st); return Some(format!("{}", a.is_one())) }
-            _ => panic!("unknown field op {}.{}", f, o),
+            _ => panic!("HARNESS unknown field op {}.{}", f, o),
         }
         None
     }}}
@@ -343,6 +343,7 @@ pub fn constant(name: &str) -> String {
         "Fq::ONE" => h(&Fq::ONE.to_bytes_le()), "Fr::ONE" => h(&Fr::ONE.to_bytes_le()), "Fp::ONE" => h(&Fp::ONE.to_bytes_le()),
         "Fq::ZERO" => h(&Fq::ZERO.to_bytes_le()), "Fr::ZERO" => h(&Fr::ZERO.to_bytes_le()), "Fp::ZERO" => h(&Fp::ZERO.to_bytes_le()),
         "ZETA" => h(&decaf377::ZETA.to_bytes_le()),
+        "Fp::QUADRATIC_NON_RESIDUE" => h(&Fp::QUADRATIC_NON_RESIDUE.to_bytes_le()), "Fp::MINUS_ONE" => h(&Fp::MINUS_ONE.to_bytes_le()),
         "GENERATOR" => h(&Element::GENERATOR.vartime_compress().0),
         "IDENTITY" => h(&Element::IDENTITY.vartime_compress().0),
         _ => crate::cmds::constant_ark(name),
@@ -350,7 +351,7 @@ pub fn constant(name: &str) -> String {
 }
 
 #[cfg(feature = "min")]
-pub fn constant_ark(name: &str) -> String { panic!("unknown constant {}", name) }
+pub fn constant_ark(name: &str) -> String { panic!("HARNESS unknown constant {}", name) }
 
 #[cfg(feature = "ark")]
 pub fn constant_ark(name: &str) -> String {
@@ -373,6 +374,6 @@ pub fn constant_ark(name: &str) -> String {
         "Group::generator" => h(&<Element as Group>::generator().vartime_compress().0),
         "AffineRepr::generator" => { let e: Element = <Aff as AffineRepr>::generator().into(); h(&e.vartime_compress().0) }
         "AffineRepr::zero" => { let e: Element = <Aff as AffineRepr>::zero().into(); h(&e.vartime_compress().0) }
-        _ => panic!("unknown constant {}", name),
+        _ => panic!("HARNESS unknown constant {}", name),
     }
 }
